@@ -1,9 +1,9 @@
 (* Proofs/C01_refuted.v — where the code as found violates C01 (witnesses by computation), the
    tie between Spec/CExprSpec.v and Spec/CIntSpec.v on closed expressions, and the target instances.
-   The definitions orig_* are FROZEN (the code at the time the defects were found: sem_orig typing,
-   uint_types[2] = ir.i16); tools/props/c01.py replays every witness on the real front-end. *)
-From PV Require Import Lib.Py Lib.Tac Spec.CIntSpec Spec.CExprSpec Gen.ceval Model.CEval Model.CSema
-                       Model.CGenExpr Model.CGenExprRun Spec.IRSyntax Spec.IRSem Proofs.C27_ceval
+   The definitions orig_* are FROZEN (the code at the time the defects were found: sem_orig typing —
+   replaced by commit c83990b —, uint_types[2] = ir.i16 — still so); tools/props/c01.py replays every witness on the real front-end. *)
+From PV Require Import Lib.Py Lib.Tac Spec.CIntSpec Spec.CExprSpec Gen.ceval Model.CEval
+                       Model.CGenExpr Model.CGenExprRun Spec.IRSyntax Spec.IRSem Proofs.C01_base
                        Proofs.C01_arith Proofs.C01_expr Gen.c01_targets.
 From Coq Require Import String.
 Open Scope Z_scope.
